@@ -98,6 +98,13 @@ class ExprMixin:
             return self.lval(e['inner'][0])
         raise Unsupported('lvalue ' + k)
 
+    def opaque_region(self, r):
+        key = ('opaque', r.id)
+        cache = self.__dict__.setdefault('_opaque', {})
+        if key not in cache or cache[key][0] is not self.st:
+            cache[key] = (self.st, Region(r.name + '[]', 'raw', length=bv(0, 64)))
+        return cache[key][1]
+
     def scaled(self, v, n):
         return v if n == 1 else v * bv(n, 64)
 
@@ -112,6 +119,12 @@ class ExprMixin:
         return 1
 
     def global_lval(self, d):
+        g = getattr(self.reg, 'globals', {}) if self.reg else {}
+        if d.get('name') in g:
+            ct = self.tu.ctype(d['type'])
+            if ct.kind != 'int' or not ct.const:
+                raise Unsupported('global %s is not a const integer' % d.get('name'))
+            return ('const', bv(g[d['name']], ct.bits))
         raise Unsupported('global variable %s' % d.get('name'))
 
     def check_nonnull(self, p, node):
@@ -135,6 +148,8 @@ class ExprMixin:
 
     def load(self, lv, node, ct=None):
         t = lv[0]
+        if t == 'const':
+            return lv[1]
         if t == 'var':
             v = self.st.env[lv[1]]
             if v is None:
@@ -161,6 +176,12 @@ class ExprMixin:
         if t == 'elem':
             r, idx = lv[1], lv[2]
             want = (ct or self.ct(node))
+            if want.kind == 'ptr' and r.bits == 64 and getattr(r, 'ptr_elems', False):
+                # element of an array of pointers the contract does not describe further: an opaque, non-NULL pointer
+                self.alive_check(r, self.text(node), node)
+                self.oblige('in_bounds', 'r:' + self.text(node), z3.ULT(idx, r.length),
+                            'read %s within %s' % (self.text(node), r.name), node)
+                return Ptr(self.opaque_region(r))
             if want.kind != 'int' or want.bits != r.bits:
                 raise Unsupported('load of %r from %d-bit array' % (want, r.bits))
             self.alive_check(r, self.text(node), node)
@@ -457,7 +478,13 @@ class ExprMixin:
         while src.get('kind') in ('ParenExpr',) or (src.get('kind') == 'ImplicitCastExpr' and src.get('castKind') in ('LValueToRValue', 'NoOp')):
             src = src['inner'][0]
         lvd = self.lval(L)
-        lvs = self.lval(src)
+        if src.get('kind') == 'CallExpr':
+            v = self.rval(src)
+            if not (isinstance(v, Ptr) and v.region is not None and v.region.kind == 'struct'):
+                raise Unsupported('struct-valued call without a contract that describes the result')
+            lvs = ('struct', v.region)
+        else:
+            lvs = self.lval(src)
         if lvd[0] != 'struct' or lvs[0] != 'struct':
             raise Unsupported('struct assignment form')
         d, s = lvd[1], lvs[1]
